@@ -156,7 +156,7 @@ w("    pub id: u16, pub fn_name: &'static str, pub reg_name: &'static str, pub f
 w("    pub is_async: bool, pub flavour: Flavour, pub policy: Policy, pub limit: Option<usize>, pub ttl: Option<u64>,")
 w("    pub max_memory: Option<usize>, pub weight: Option<f64>,")
 w("    pub tags: &'static [&'static str], pub events: &'static [&'static str], pub deps: &'static [&'static str],")
-w("    pub has_inv_on: bool, pub has_cache_if: bool, pub is_result: bool, pub nkeys: u8,")
+w("    pub has_inv_on: bool, pub has_cache_if: bool, pub is_result: bool, pub nkeys: u8, pub ret_kind: &'static str,")
 w("    pub call: fn(Key) -> RetObs, pub fut: Option<fn(Key) -> AFut>, pub repr: fn(Key) -> String, pub fpp: fn(bool, usize) -> usize,")
 w("}")
 w("")
@@ -300,7 +300,7 @@ for i, f in enumerate(FNS):
         f"max_memory: {'None' if memb is None else 'Some(%d)' % memb}, weight: {wt}, "
         f"tags: &[{', '.join(chr(34) + t + chr(34) for t in f['tags'])}], events: &[{', '.join(chr(34) + t + chr(34) for t in f['events'])}], "
         f"deps: &[{', '.join(chr(34) + t + chr(34) for t in f['deps'])}], has_inv_on: {str(f['inv_on']).lower()}, has_cache_if: {str(f['cache_if']).lower()}, "
-        f"is_result: {str(f['ret'].startswith('r')).lower()}, nkeys: {nkeys}, call: call_{name}, fut: {fut}, repr: repr_{name}, fpp: fpp_{name} }},"
+        f"is_result: {str(f['ret'].startswith('r')).lower()}, nkeys: {nkeys}, ret_kind: \"{f['ret']}\", call: call_{name}, fut: {fut}, repr: repr_{name}, fpp: fpp_{name} }},"
     )
 
 w("/// Footprint of the value the body of function `id` produces for the given script.")
